@@ -270,6 +270,30 @@ def _walk_stmts(block, f):
                 _walk_stmts(c.get("Body"), f)
 
 
+HANDLE_FIELDS = ("Pointer", "Source", "Left", "Right", "Base", "Value", "Condition", "Accept", "Reject", "Expr", "Argument",
+                 "Arg", "Arg1", "Arg2", "Arg3", "Vector", "Array", "Image", "Coordinate", "Sampler", "ArrayIndex", "DepthRef",
+                 "Level", "Bias", "X", "Y", "Query", "Delta", "Mask")
+
+
+def _operands(kind):
+    """expression handles an expression kind (reflection dump) refers to"""
+    out = []
+    for key, v in kind.items():
+        if isinstance(v, bool):
+            continue
+        if isinstance(v, int) and (key in HANDLE_FIELDS or (key == "Index" and kind["_t"] != "ExprAccessIndex")):
+            out.append(v)
+        elif key == "Components" and isinstance(v, list):
+            out += [x for x in v if isinstance(x, int) and not isinstance(x, bool)]
+        elif isinstance(v, dict):
+            out += _operands(dict(v, _t=v.get("_t", "")))
+        elif isinstance(v, list):
+            for x in v:
+                if isinstance(x, dict):
+                    out += _operands(dict(x, _t=x.get("_t", "")))
+    return out
+
+
 def _functions(ir):
     return [e["Function"] for e in ir["EntryPoints"]] + list(ir["Functions"])
 
@@ -327,10 +351,14 @@ def dce_cause(before, after):
                 _walk_stmts(fn["Body"], f)
                 return out
             loaded = set()
-            for h in live_handles(fa):
-                if not (0 <= h < len(fa["Expressions"])):
+            work, seen = list(live_handles(fa)), set()
+            while work:
+                h = work.pop()
+                if h in seen or not (0 <= h < len(fa["Expressions"])):
                     continue
+                seen.add(h)
                 k = fa["Expressions"][h]["Kind"]
+                work += _operands(k)
                 if k["_t"] == "ExprLoad":
                     p = fa["Expressions"][k["Pointer"]]["Kind"]
                     while p["_t"] in ("ExprAccess", "ExprAccessIndex"):
